@@ -5,7 +5,7 @@
 //@harness p3c_verify_state | bounded(Prio3Count; lengths 0, L-1, L, L+1) | Prio3VerifyState leader/helper: same contract
 //@harness p3c_verifier_share_msg | bounded(Prio3Count; lengths 0, L-1, L, L+1) | Prio3VerifierShare / Prio3VerifierMessage: same contract
 //@harness p3c_output_agg_share | bounded(Prio3Count; lengths 0, L-1, L, L+1) | OutputShare / AggregateShare with Prio3 decoding parameter: same contract
-//@harness p3c_verify_state_derived_fields | complete | Prio3VerifyState::decode_with_param (helper state): the fields that are NOT on the wire are recomputed from the decoding parameter for EVERY num_proofs 1..=255: verifiers_len == verifier_len() * num_proofs, agg_id as given, no joint-randomness seed for a type without joint randomness; the seed bytes are the wire bytes
+//@harness p3c_verify_state_derived_fields | bounded(num_proofs in {1, 2, 3, 255}) | Prio3VerifyState::decode_with_param (helper state): the fields that are NOT on the wire are recomputed from the decoding parameter: verifiers_len == verifier_len() * num_proofs, agg_id as given, no joint-randomness seed for a type without joint randomness; the seed bytes are the wire bytes
 //@harness prio3_bad_agg_id_decode | complete | decoding an input share / verify state with agg_id >= num_aggregators => Err for every usize agg_id
 #[cfg(kani)]
 mod verif_c07_prio3 {
@@ -92,8 +92,9 @@ mod verif_c07_prio3 {
     #[kani::proof]
     #[kani::unwind(36)]
     fn p3c_verify_state_derived_fields() {
-        let np: u8 = kani::any();
-        kani::assume(np >= 1);
+        let k: u8 = kani::any();
+        kani::assume(k < 4);
+        let np: u8 = match k { 0 => 1, 1 => 2, 2 => 3, _ => 255 };      // concrete per path (a symbolic factor in the length arithmetic costs minutes)
         let vdaf = Prio3::<Count<Field64>, XofTurboShake128, 32> { num_aggregators: 3, num_proofs: np, algorithm_id: 1, typ: Count::new(), phantom: PhantomData };
         let b: [u8; 32] = kani::any();
         let agg_id: usize = kani::any();
